@@ -80,6 +80,11 @@ func (g *exprGen) literal() string {
 		return Pick(r, []string{"1", "0", "007", "12.50", "1.0", "0.5", "12345678901", "3.14159", "10"})
 	case 2, 3:
 		g.feats["text"] = true
+		if r.Chance(8) {
+			// long texts: 99, 100, 101 and more characters
+			n := Pick(r, []int{99, 100, 101, 160, 1000})
+			return `"` + string([]rune(strings.Repeat(Pick(r, []string{"a", "é", "ab ", "xy"}), n))[:n]) + `"`
+		}
 		return Pick(r, []string{`"abc"`, `""`, `"a\"b"`, `"a\\b"`, `"\n\t"`, `"é😀"`, `"\w+"`, `"é"`, `"@foo"`, `"x y"`, `"it's"`, `"\x41"`, `"a\\"`, `"(1"`, `"1 + 2"`})
 	case 4:
 		return Pick(r, []string{"true", "TRUE", "false", "False"})
@@ -108,7 +113,7 @@ func (g *exprGen) expr(depth int) string {
 		return "-" + g.sp() + g.expr(depth-1)
 	case 6:
 		g.feats["lambda"] = true
-		args := Pick(r, [][]string{{"x"}, {"x", "y"}, {"a"}, {"X"}, {"foo"}})
+		args := Pick(r, [][]string{{"x"}, {"x", "y"}, {"a"}, {"X"}, {"foo"}, {"Foo"}, {"FOO", "y"}, {"bar", "fOO"}})
 		body := g.expr(depth - 1)
 		if r.Chance(60) {
 			body = args[0] + g.sp() + Pick(r, []string{"+", "*", "&"}) + g.sp() + body
@@ -372,6 +377,49 @@ func runC11(c *Ctx) {
 		}
 		if i < 3 {
 			c.Sample(map[string]any{"expression": text, "printed": printed})
+		}
+	}
+
+	// ---- renaming around anonymous functions whose parameters rebind (any spelling of) the renamed name ----------------
+	for i := 0; i < c.N(400, 20000); i++ {
+		p := Pick(r, []string{"foo", "Foo", "FOO", "fOo", "x", "bar", "food"})
+		q := Pick(r, []string{"foo", "Foo", "y", "x"})
+		body := Pick(r, []string{p, p + " & \"!\"", p + " * 2", "foo", "Foo & " + p, "upper(" + p + ")", p + " + " + q, "((" + q + ") => " + q + " + " + p + ")(1)", "foo.name", p + " = foo"})
+		params := p
+		if r.Chance(30) {
+			params = p + ", " + q
+		}
+		var text string
+		if strings.Contains(params, ",") {
+			text = fmt.Sprintf("((%s) => %s)(5, 7)", params, body)
+		} else {
+			text = fmt.Sprintf("foreach(array(1, 2), (%s) => %s)", params, body)
+		}
+		tpl := "r=@(" + text + ")" + Pick(r, []string{"", " @foo", " @(foo + 1)", " @(FOO)"})
+		val := types.XValue(types.RequireXNumberFromString("40"))
+		if strings.Contains(body, ".name") {
+			val = types.NewXObject(map[string]types.XValue{"name": types.NewXText("Ann"), "__default__": types.NewXText("obj")})
+		}
+		ctx1 := types.NewXObject(map[string]types.XValue{"foo": val, "bar": types.NewXText("B"), "food": types.NewXText("F")})
+		ctx2 := types.NewXObject(map[string]types.XValue{"zed": types.NewXObject(map[string]types.XValue{"json": val}), "bar": types.NewXText("B"), "food": types.NewXText("F")})
+		renamed, rerr := refactor.Template(tpl, nil, refactor.ContextRefRename("foo", "zed.json"))
+		tdesc := map[string]any{"template": tpl, "renamed": renamed}
+		if rerr != nil {
+			continue
+		}
+		v1, _, e1 := excellent.NewEvaluator().Template(env, ctx1, tpl, nil)
+		v2, _, e2 := excellent.NewEvaluator().Template(env, ctx2, renamed, nil)
+		c.Count("check:M-rename-lambda")
+		c.Eval(fmt.Sprintf("rename-lambda|%v|%v|%v", strings.EqualFold(p, "foo"), strings.Contains(params, ","), e1 == nil))
+		if e1 == nil && (e2 != nil || v1 != v2) {
+			tdesc["value"], tdesc["value_of_renamed"] = v1, v2
+			c.Fail("monitor", "M-rename", "rename-changes-value:parameter", "renaming a context reference changes a reference to an anonymous function's parameter (or misses a context reference)", tdesc)
+		}
+		if toks, ok := c11Lex(text); ok {
+			if p2, err := excellent.Parse(text, nil); err == nil {
+				changed := refactor.ContextRefRename("foo", "zed.json")(p2)
+				c.Model("exprrename", fmt.Sprintf("exprrename %s %s %s", hx("foo"), hx("zed.json"), toks), fmt.Sprintf("ok %s %s", hx(p2.String()), b01(changed)), tdesc)
+			}
 		}
 	}
 }
